@@ -37,9 +37,9 @@ type Case struct {
 	M      *projsim.Model `json:"m"`
 	X      int            `json:"x"`
 	Ops    []projsim.Op   `json:"ops"`
-	Order1 []int          `json:"order1"` // package permutation for the first build (empty = free)
-	Order2 []int          `json:"order2"` // for the rebuild
-	Index  bool           `json:"index"`  // rebuild of a second kind: load with PreferIndex first (as the CLI's list commands do) between the builds
+	Order1 []int          `json:"order1"`           // package permutation for the first build (empty = free)
+	Order2 []int          `json:"order2"`           // for the rebuild
+	Index  bool           `json:"index"`            // rebuild of a second kind: load with PreferIndex first (as the CLI's list commands do) between the builds
 	Absent []int          `json:"absent,omitempty"` // selectors of declared source files that do not exist on disk (from the start)
 }
 
